@@ -303,6 +303,8 @@ Example snapshot_immutable_example :
   (forall g g', In g (bufs (fst st1)) -> In g' (bufs (fst st3)) -> gid g' <> gid g).
 Proof.
   cbv zeta. split.
-  - eexists; eexists. split; [left; reflexivity|]. split; [right; left; reflexivity|]. vm_compute. repeat split; congruence.
+  - exists {| gid := 1; gdata := [1; 9; 9; 9]; glen := 1; gres := 4 |},
+           {| gid := 1; gdata := [1; 2; 3; 9]; glen := 3; gres := 4 |}.
+    vm_compute. repeat split; auto; congruence.
   - vm_compute. intros g g' [<-|[]] [<-|[<-|[]]]; cbn; congruence.
 Qed.
